@@ -42,7 +42,7 @@ def run_stress(chk, binary, jobs, g, procs, rounds, seedv, name):
     vlib.write_ndjson(jp, jobs)
     env = dict(os.environ, GOMAXPROCS=str(procs), GORACE="halt_on_error=0 exitcode=0")
     try:
-        p = subprocess.run([binary, "-in", jp, "-out", ep, "-g", str(g), "-rounds", str(rounds), "-seed", str(seedv)], capture_output=True, text=True, timeout=1200, env=env)
+        p = subprocess.run([binary, "-in", jp, "-out", ep, "-g", str(g), "-rounds", str(rounds), "-seed", str(seedv)], capture_output=True, text=True, timeout=600, env=env)
     except subprocess.TimeoutExpired:
         return [dict(op="deadlock", hist=0)], ""
     evs = vlib.read_ndjson(ep) if os.path.exists(ep) else []
@@ -81,7 +81,10 @@ def run(tier):
     # (a) stress, code -> spec
     configs = [(2, 1), (2, 4), (8, 2), (8, 16), (64, 4), (16, 1)] if quick else [(g, p) for g in (2, 8, 64) for p in (1, 2, 4, 16)] + [(3, 3), (32, 8)]
     traces, total = [], 0
+    stuck = False
     for k, (g, procs) in enumerate(configs):
+        if stuck:
+            break            # one hung run is enough evidence; do not wait for the watchdog again in every configuration
         for rep in range(1 if quick else 3):
             jobs = stress_jobs(rng, 14 if quick else 40)
             evs, _ = run_stress(chk, binary, jobs, g, procs, 1 if g >= 32 else 2, vlib.seed() * 100 + k * 10 + rep, "st%d_%d" % (k, rep))
@@ -89,6 +92,7 @@ def run(tier):
                 e["hist"] = len(traces)
             evs.insert(0, dict(op="config", g=g, gomaxprocs=procs, hist=len(traces)))
             traces.append((("stress g=%d GOMAXPROCS=%d" % (g, procs)), jobs, evs, g, procs))
+            stuck = stuck or any(e["op"] == "deadlock" for e in evs)
             total += sum(1 for e in evs if e["op"] == "cencode")
     # (b) schedules, spec -> code
     behs = behaviours(chk, 20 if quick else 400)
@@ -101,7 +105,7 @@ def run(tier):
         ep = os.path.join(chk.work, "sched.events")
         json.dump(sched, open(sp, "w"))
         try:
-            p = subprocess.run([binary, "-mode", "schedule", "-in", sp, "-out", ep], capture_output=True, text=True, timeout=1200, env=dict(os.environ, GORACE="halt_on_error=0 exitcode=0"))
+            p = subprocess.run([binary, "-mode", "schedule", "-in", sp, "-out", ep], capture_output=True, text=True, timeout=600, env=dict(os.environ, GORACE="halt_on_error=0 exitcode=0"))
             evs = vlib.read_ndjson(ep)
             if "WARNING: DATA RACE" in p.stderr:
                 evs.append(dict(op="race", hist=0))
